@@ -406,6 +406,14 @@ def prop_matrix(ch, ctx):
             sub = True
             for row in pspec['flows']: row[j] = 0.0
     src = view_spec(pspec, view)
+    # Sparse flow data has a hidden degree of freedom: the insertion order of the stored entries.  Optionally the
+    # source is stored in a drawn order, and a prelude copy of the same flows stored in ANOTHER order goes first
+    # into a second destination on the same package (cross-package lookups are remembered per destination package).
+    prelude = xpkg and op in ('copy_like', 'copy_flow') and ch.bool('prelude')
+    if prelude:
+        n_src = len(names_of(spkg))
+        pspec['order'] = ch.permutation('src.order', n_src)
+        order2 = ch.permutation('prelude.order', n_src)
     owner = build(pspec); t = build(tgt)
     s = owner[view] if view else owner      # a phase sub-stream of a MultiStream is a stream, too
     rel = phase_relation(src['phases'], tgt['phases'])      # are the source's phase labels available in the target?
@@ -416,6 +424,18 @@ def prop_matrix(ch, ctx):
     s0 = snap(s); t0 = snap(t)
     nonempty = bool(nonzero_rows(s0['rows']))
     site = 'matrix.' + op
+    if prelude:
+        ctx.cell('m:prelude'); 
+        if pspec['order'] != order2 and nonempty: ctx.cell('m:prelude:reordered')
+        pre_owner = build(dict(pspec, order=order2)); pre_s = pre_owner[view] if view else pre_owner
+        pre_t = build(tgt)
+        ctx.check(snap(pre_s) == s0, f'{site}.prelude|{region}|harness', 'prelude source differs from the source')
+        ctx.call(site + '.prelude', getattr(pre_t, op), pre_s, region=region)
+        if op == 'copy_like':
+            pt = snap(pre_t)
+            want, missing = expect_rows(s0['rows'], pt['phases'])
+            ok, msg = rows_equal(pt['rows'], want, merged=True)
+            ctx.check(ok and not missing, f'{site}|{region}|flows-mismatch', lambda: f'(first copy) {msg}; target {nonzero_rows(pt["rows"])} source {nonzero_rows(s0["rows"])}')
 
     if op == 'copy_like':
         ctx.call(site, t.copy_like, s, region=region)
